@@ -377,7 +377,7 @@ class FuncContent:
                 self.is_expect_command = True
                 self.expanded_commands = []
 
-        if token.string == "matches":
+        if token.string == "matches" and token.token_type == TokenType.KEYWORD:
             self.__handle_matches(key_pos)
             return
 
@@ -560,7 +560,11 @@ class FuncContent:
             self.__handle_startswith_nbt(key_pos, __nbt_type)
             return SKIP_TO_NEXT_LINE
 
-        if len(self.command[key_pos:]) > 2 and self.command[key_pos + 1].string == ":":
+        if (
+            len(self.command[key_pos:]) > 2
+            and self.command[key_pos + 1].token_type == TokenType.OPERATOR
+            and self.command[key_pos + 1].string == ":"
+        ):
             if self.__handle_startswith_var(key_pos):
                 return SKIP_TO_NEXT_LINE
 
